@@ -381,6 +381,43 @@ KINDS: List[Kind] = [
 ]
 KIND = {k.name: k for k in KINDS}
 
+# typed references (the call site passes an expected type to OdxLinkDatabase.resolve): which object kinds (reflinks kind tags)
+# are acceptable, and builders of objects of ANOTHER kind that can carry the same ID
+DOPBASE_TAGS = ["dop", "dtcdop", "struct", "envdata", "envdesc", "sfield", "dlfield", "emfield", "eopfield", "mux"]
+TYPED: Dict[str, Tuple[List[str], List[Callable[..., Dict[str, Any]]]]] = {
+    "table-struct/TABLE-KEY-REF": (["TABLE-KEY"], [T_dop, T_lengthkey]),
+    "dop-unit/UNIT-REF": (["units"], [T_physdim, T_dop]),
+    "unit/PHYSICAL-DIMENSION-REF": (["physdims"], [T_unit, T_dop]),
+    "mux-case/STRUCTURE-REF": (["struct"], [T_dop, T_envdata]),
+    "mux-default-case/STRUCTURE-REF": (["struct"], [T_dop, T_envdata]),
+    "mux-switch-key/DATA-OBJECT-PROP-REF": (["dop"], [T_struct, T_dtcdop]),
+    "table/KEY-DOP-REF": (["dop"], [T_struct, T_dtcdop]),
+    "table-row/STRUCTURE-REF": (["struct", "envdata"], [T_dop, T_fclass]),
+    "table-row/FUNCT-CLASS-REF": (["fclasses"], [T_dop, T_audience]),
+    "table/TABLE-ROW-REF": (["rows"], [T_dop, T_struct]),
+    "table-diag-comm-connector/DIAG-COMM-REF": (["service", "job"], [T_dop, T_msg("requests")]),
+    "static-field/BASIC-STRUCTURE-REF": (["struct", "envdata"], [T_dop, T_fclass]),
+    "dynamic-length-field/BASIC-STRUCTURE-REF": (["struct", "envdata"], [T_dop, T_fclass]),
+    "dynamic-endmarker-field/BASIC-STRUCTURE-REF": (["struct", "envdata"], [T_dop, T_fclass]),
+    "end-of-pdu-field/BASIC-STRUCTURE-REF": (["struct", "envdata"], [T_dop, T_fclass]),
+    "end-of-pdu-field/ENV-DATA-DESC-REF": (["envdesc"], [T_struct, T_dop]),
+    "dynamic-length-field/count DATA-OBJECT-PROP-REF": (["dop"], [T_struct, T_dtcdop]),
+    "dynamic-endmarker-field/DYN-END-DOP-REF": (["dop"], [T_struct, T_dtcdop]),
+    "dtc-dop/LINKED DTC-DOP-REF": (["dtcdop"], [T_dop, T_struct]),
+    "dtc-dop/DTC-REF": (["dtcs"], [T_dop, T_dtcdop]),
+    "service/REQUEST-REF": (["requests"], [T_msg("posresps"), T_dop]),
+    "service/POS-RESPONSE-REF": (["posresps", "negresps", "gnrs"], [T_msg("requests"), T_dop]),
+    "service/NEG-RESPONSE-REF": (["posresps", "negresps", "gnrs"], [T_msg("requests"), T_dop]),
+    "service/FUNCT-CLASS-REF": (["fclasses"], [T_dop, T_audience]),
+    "service/RELATED-DIAG-COMM-REF": (["service", "job"], [T_dop, T_msg("requests")]),
+    "service/ENABLED-AUDIENCE-REF": (["audiences"], [T_fclass, T_dop]),
+    "service/DISABLED-AUDIENCE-REF": (["audiences"], [T_fclass, T_dop]),
+    "diag-comms/DIAG-COMM-REF": (["service", "job"], [T_dop, T_msg("requests")]),
+    "job/FUNCT-CLASS-REF": (["fclasses"], [T_dop, T_audience]),
+    "job-input-param/DOP-BASE-REF": (DOPBASE_TAGS, [T_fclass, T_msg("requests")]),
+    "job-output-param/DOP-BASE-REF": (DOPBASE_TAGS, [T_fclass, T_msg("requests")]),
+}
+
 # ---------------------------------------------------------------------------------------------
 # family (I): ODXLINK scenarios
 # ---------------------------------------------------------------------------------------------
@@ -421,6 +458,9 @@ def id_world(sc: Dict[str, Any]) -> Tuple[Dict[str, Any], Dict[str, Any]]:
     byname = {"LR": LR, "LS": LS, "LO": LO, "LE": LE}
     for loc in sc["defs"]:
         add(byname[loc], kind.target(loc, X_ID, "T@" + loc, "t_X"))
+    if sc.get("wrong") is not None:
+        # an object of ANOTHER kind carries the ID X in the referring layer (the nearest fragment)
+        add(LR, TYPED[sc["kind"]][1][sc["wrong"]]("LR", X_ID, "W@LR", "w_X"))
     for loc in sc.get("dormant", []):
         # an object of the target type under another ID (the re-resolution phase gives it the ID X later)
         add(byname[loc], kind.target(loc, X_ID + "_dormant", "T@" + loc, "t_X"))
@@ -443,6 +483,8 @@ def id_world(sc: Dict[str, Any]) -> Tuple[Dict[str, Any], Dict[str, Any]]:
             l["comparam_spec"] = copy.deepcopy(SPEC_REF)
         world["specs"] = [copy.deepcopy(SPEC0)]
     probe = {"mode": "id", "owner": ("layer", "LR"), "ref": ref}
+    if sc["kind"] in TYPED:
+        probe["accept"] = TYPED[sc["kind"]][0]
     return world, probe
 
 
@@ -483,7 +525,8 @@ def observed_marker(observed: str) -> Any:
     return observed[6:] if observed.startswith("bound:") else None
 
 
-LOC_CLASS = {"T@LR": "own-layer", "T@LS": "sibling-layer", "T@LO": "other-container", "T@LE": "shared-layer"}
+LOC_CLASS = {"T@LR": "own-layer", "T@LS": "sibling-layer", "T@LO": "other-container", "T@LE": "shared-layer",
+             "W@LR": "wrong-kind-object-of-own-layer"}
 
 
 def loc_class(marker: Any) -> str:
@@ -497,7 +540,8 @@ def id_key(sc: Dict[str, Any], mode: str, scope: str, expected: Tuple[str, str],
     the actually bound object live relative to the referrer"""
     fam = "idref" if scope == "family" else "idref:" + sc["kind"]
     exp = loc_class(expected[1]) if expected[0] == "BIND" else "error"
-    return f"C10/{fam}/{sc['form']}/{mode}/expected={exp}/bound={loc_class(got)}"
+    wk = "/wrong-kind-in-own-layer" if sc.get("wrong") is not None else ""
+    return f"C10/{fam}/{sc['form']}{wk}/{mode}/expected={exp}/bound={loc_class(got)}"
 
 
 def dontcare_class(why: str) -> str:
@@ -506,6 +550,9 @@ def dontcare_class(why: str) -> str:
 
 
 def describe(sc: Dict[str, Any]) -> str:
+    if sc.get("wrong") is not None:
+        return (f"referrer LR in CA, {sc['form']}, LR itself defines an object of ANOTHER kind with ID X, objects of the right kind with ID X "
+                f"in {sc['defs'] or 'no layer'}, LE imported by {sc['imports'] or 'nobody'}")
     return (f"referrer LR ({sc.get('rtype', 'BASE-VARIANT')}) in CA, {sc['form']}, ID X defined in {sc['defs'] or 'no layer'}, "
             f"LE imported by {sc['imports'] or 'nobody'}, " + ("LS before LR" if sc.get("s_first") else "LR before LS") +
             (", CB loaded first" if sc.get("cb_first") else ""))
@@ -533,11 +580,24 @@ def id_cells(quick: bool) -> List[Dict[str, Any]]:
                                 continue
                             if cb_first and imps != ["LO"]:
                                 continue
+                            if imps and "LE" not in defs:
+                                continue  # quick: an import can only matter if the imported layer defines X
                             if imps:
                                 cell["core_only"] = True
                         elif len(imps) > 1:
                             cell["core_only"] = True  # thorough: several importers at once only for the core kinds
                         cells.append(cell)
+    # typed reference kinds: an object of another kind carries the ID in the referring layer, right-kind objects elsewhere
+    for form in FORMS:
+        for defs in subsets_of(["LS", "LO", "LE"]):
+            for imps, s_first in (([], False), (["LR"], False), (["LS"], True)):
+                for wrong in (0, 1):
+                    if quick and (wrong == 1 or imps == ["LS"] or (imps and "LE" not in defs)):
+                        continue
+                    cell = {"form": form, "defs": defs, "imports": imps, "s_first": s_first, "cb_first": False, "wrong": wrong}
+                    if quick and imps:
+                        cell["core_only"] = True
+                    cells.append(cell)
     if not quick:
         # the referrer is a layer of another type (each type has its own raw class and resolution code path)
         for rtype in RTYPES[1:]:
@@ -567,6 +627,8 @@ def _id_unit(unit: Tuple[List[Dict[str, Any]], List[str]]) -> Part:
         for kn in kinds:
             if core_only and not KIND[kn].core:
                 continue
+            if cell.get("wrong") is not None and kn not in TYPED:
+                continue  # untyped call sites bind whatever carries the ID; the property does not speak about kinds there
             sc = dict(cell, kind=kn)
             expected, fail, observed = run_id_scenario(sc)
             part.count("evaluations")
@@ -577,7 +639,11 @@ def _id_unit(unit: Tuple[List[Dict[str, Any]], List[str]]) -> Part:
                 part.add("dontcare_observations", (dontcare_class(expected[1]), observed if observed.startswith("bound:T@") else observed.split(":")[0]))
             if observed.startswith("raised:"):
                 part.add("exception_types", observed[7:])
-            part.add("nontrivial", digest((kn, cell["form"], cell["defs"], cell["imports"], expected[0], observed.split(":")[0])))
+            part.add("nontrivial", digest((kn, cell["form"], cell["defs"], cell["imports"], cell.get("wrong"), expected[0],
+                                           observed.split(":")[0])))
+            if cell.get("wrong") is not None:
+                part.count("wrong_kind_scenarios")
+                part.add("wrong_kind_outcome_classes", (expected[0], observed.split(":")[0]))
             results.append((sc, expected, fail, observed))
         judged = [r for r in results if r[1][0] != "DONTCARE"]
         failed = [r for r in judged if r[2] is not None]
@@ -1015,8 +1081,9 @@ def s_scenarios(quick: bool) -> List[Dict[str, Any]]:
             continue  # same Field._resolve_snrefs as the static and end-of-pdu field; thorough tier only
         for owner in ("LR", "LP"):
             for defs in subsets_of(S_LOCS):
-                if quick and "LS" in defs and "LO" in defs:
-                    continue  # quick: the two layers outside the owner's ancestry are not combined
+                if quick and (("LS" in defs and "LO" in defs) or ("LO" in defs and len(defs) > 2)):
+                    continue  # quick: the two layers outside the owner's ancestry are not combined; the unrelated layer
+                    # LO only alone or with one other definition
                 for ni in ([], ["LR"], ["LP"], ["LR", "LP"]):
                     for imp in (False, True):
                         if quick and ((imp and "LE" not in defs) or len(ni) > 1):
@@ -1091,6 +1158,9 @@ def s_scenarios(quick: bool) -> List[Dict[str, Any]]:
     for sit in ("unique", "missing", "ambiguous"):
         for rev in (False, True):
             out.append({"fam": "S2", "kind": "protocol/PROT-STACK-SNREF", "situation": sit, "reverse": rev})
+    if quick:
+        for sc in out:
+            sc["quick"] = True
     return out
 
 
@@ -1118,6 +1188,7 @@ def rel_class(owner: str, marker: Any) -> str:
 
 
 RETARGETS = ["LR", "LS", "LP", "LO"]
+RETARGETS_QUICK = ["LR", "LS", "LP"]  # quick: without the unrelated layer (a pure negative control)
 
 
 def run_s_scenario(sc: Dict[str, Any]) -> List[Tuple[str, Tuple[str, str], Optional[Tuple[str, str]], str]]:
@@ -1146,7 +1217,7 @@ def run_s_scenario(sc: Dict[str, Any]) -> List[Tuple[str, Tuple[str, str], Optio
     old = oe.strict_mode
     oe.strict_mode = True
     try:
-        for target in RETARGETS:
+        for target in (RETARGETS_QUICK if sc.get("quick") else RETARGETS):
             if target not in model.layers:
                 continue
             if db is None:  # the previous step raised: the database may be half re-targeted, start from a fresh one
@@ -1226,7 +1297,7 @@ def _s_unit(scs: List[Dict[str, Any]]) -> Part:
 # the ID X / move a target into another layer (document fragment).  After refresh() the probe reference must be bound as the
 # reference model says for the EDITED description (in particular: fail if X no longer exists where it is looked up) and as a
 # database freshly loaded from the edited description; after undoing the edit and refreshing again it must be back.
-R_KINDS_QUICK = ["param/DOP-REF", "service/REQUEST-REF", "table-key/TABLE-ROW-REF"]
+R_KINDS_QUICK = ["param/DOP-REF", "table-key/TABLE-ROW-REF"]
 R_KINDS = ["param/DOP-REF", "service/REQUEST-REF", "table-key/TABLE-ROW-REF", "mux-case/STRUCTURE-REF", "service/FUNCT-CLASS-REF",
            "env-data-desc/ENV-DATA-REF", "table-struct/TABLE-KEY-REF", "diag-comms/DIAG-COMM-REF"]
 # (not TABLE-REF: the rows of a TABLE refer back to the table's ID, an ID edit of the table alone would leave the description
@@ -1486,7 +1557,7 @@ def _run(ctx: Ctx) -> None:
                   "layers_and_comparam_documents": {"kinds": ["parent-ref", "import-ref"] + D_DOC_KINDS, "scenarios": len(dscs)},
                   "snref": {"kinds": list(S_KINDS) + ["table-struct/TABLE-KEY-SNREF", "table-key/TABLE-ROW-SNREF",
                                                       "protocol/PROT-STACK-SNREF", "service/PROTOCOL-SNREF"],
-                            "definition_locations": S_LOCS, "scenarios": len(sscs), "retarget_targets": RETARGETS}}
+                            "definition_locations": S_LOCS, "scenarios": len(sscs), "retarget_targets": RETARGETS_QUICK if ctx.quick else RETARGETS}}
     ctx.rule = ("one database per scenario; non-trivial = distinct (reference kind, addressing form / owner, definition set, import "
                 "set, situation, phase, expected verdict, observed class) combinations")
     ctx.assumptions = ["layer SHORT-NAMEs are unique in the database (ISO 22901-1 7.3.2.1)",
@@ -1513,6 +1584,9 @@ def _run(ctx: Ctx) -> None:
     ctx.guard("references that must bind and do bind were seen", ("BIND", "bound") in oc)
     ctx.guard("references that must fail and do fail were seen", ("FAIL", "raised") in oc)
     ctx.guard("don't-care scenarios were seen", any(o[0] == "DONTCARE" for o in oc))
+    wk = ctx.sets.get("wrong_kind_outcome_classes", set())
+    ctx.guard("wrong-kind objects in the nearest fragment make typed references fail; with DOCREF elsewhere they still bind",
+              ("FAIL", "raised") in wk and ("BIND", "bound") in wk)
     roc = ctx.sets.get("retarget_outcome_classes", set())
     ctx.guard("retargeting rebinds and also fails where it must", ("retarget", "BIND", "bound") in roc and ("retarget", "FAIL", "raised") in roc)
     for sc in ({"kind": "param/DOP-REF", "form": "no-docref", "defs": ["LR", "LS", "LO", "LE"], "imports": ["LS"], "s_first": True, "cb_first": False},
